@@ -4,11 +4,11 @@ package props
 
 import (
 	"fmt"
-	"time"
 	"sort"
 	"strconv"
 	"strings"
 	"testing"
+	"time"
 
 	"verif/explore"
 )
